@@ -122,6 +122,158 @@ def orbitIn (fuel : Nat) (ps : Pairs) (seg : Nat → Nat → V6) (a b : Nat) : R
     | .ok x0 => reframe fuel ps seg c b x0
     | e => e
 
+/-! ## Frames attached to an orbit (`Orbit.as_frame` / `orbit2frame`) -/
+
+/-- `orbit2frame(x, ref_orbit)` for an orbit that a `JplPropagator(obj, frame of cen)` returned:
+`Center(x).add_link(ref_orbit.frame.center, ref_orbit.frame.orientation, ref_orbit)`.
+The new centre `x` hangs below `link`, the centre of the frame the orbit is expressed in when `as_frame` is
+called (`cen` as long as the orbit was not re-framed); its offset is `ref_orbit.propagate(date)`, i.e. the
+propagator of the orbit called again: body `obj` relative to `cen`. -/
+structure Att where
+  x : Nat
+  link : Nat
+  obj : Nat
+  cen : Nat
+
+/-- the class attribute `<u>_to_<v>` set by `add_link` of an attached centre -/
+def attFind (att : List Att) (u v : Nat) : Option Att :=
+  att.find? (fun t => t.x == u && t.link == v)
+
+/-- one step of `Center.convert_to` when attached frames exist: `hasattr(self, direct)` first (a kernel link or
+an attached centre), then the reverse attribute with a minus sign -/
+def stepOffsetA (ps : Pairs) (att : List Att) (seg : Nat → Nat → V6) (a b : Nat) : Res :=
+  if ps.contains (b, a) then provide ps seg a
+  else match attFind att a b with
+    | some t => propagate ps seg t.obj t.cen
+    | none =>
+      if ps.contains (a, b) then negRes (provide ps seg b)
+      else match attFind att b a with
+        | some t => negRes (propagate ps seg t.obj t.cen)
+        | none => .noProvider
+
+def sumStepsA (ps : Pairs) (att : List Att) (seg : Nat → Nat → V6) : V6 → List Nat → Res
+  | acc, a :: b :: rest =>
+    match stepOffsetA ps att seg a b with
+    | .ok o => sumStepsA ps att seg (vadd acc o) (b :: rest)
+    | e => e
+  | acc, _ => .ok acc
+
+/-- `create_frames` followed by the `add_link` of every attached centre, in order of creation -/
+def linkHistA (ps : Pairs) (att : List Att) : List (Nat × Nat) := linkHist ps ++ att.map (fun t => (t.x, t.link))
+
+def centerToA (fuel : Nat) (ps : Pairs) (att : List Att) (seg : Nat → Nat → V6) (a b : Nat) : Res :=
+  match build fuel (linkHistA ps att) with
+  | none => .fuel
+  | some g =>
+    match path fuel g a b with
+    | .ok p => sumStepsA ps att seg vzero p
+    | .unknown => .noRoute
+    | .keyError => .keyError
+    | .loop => .fuel
+
+def hasFrameA (ps : Pairs) (att : List Att) (x : Nat) : Bool := hasFrame ps x || att.any (fun t => t.x == x)
+
+/-- `Frame.transform` between two frames (kernel bodies or attached ones) that share the EME2000 orientation -/
+def reframeA (fuel : Nat) (ps : Pairs) (att : List Att) (seg : Nat → Nat → V6) (a b : Nat) (x : V6) : Res :=
+  if !hasFrameA ps att a || !hasFrameA ps att b then .unknownFrame
+  else if a = b then .ok x
+  else match centerToA fuel ps att seg a b with
+    | .ok off => .ok (vadd x off)
+    | e => e
+
+/-! ## Histories: objects handed out to the caller, modified in place, asked again
+
+The code has NO memory between requests: every `propagate` reads the segments again and builds a new object.
+The model makes that explicit: a world is the list of objects the caller owns (which he may modify in place) and the
+list of frames he created from orbits; requests read the kernel and the attached frames only, never the objects. -/
+
+/-- an `Orbit` owned by the caller: its date (index into the dates of the run), the body its frame is centred on,
+its six cartesian values, and the propagator it carries (`obj` relative to `cen`) -/
+structure Obj where
+  date : Nat
+  frame : Nat
+  vec : V6
+  obj : Nat
+  cen : Nat
+
+structure World where
+  objs : List Obj
+  att : List Att
+
+inductive Op where
+  /-- `o = jpl.get_orbit(a, date k)` (also `Body.propagate`, `get_propagator(a).propagate`) -/
+  | get (k a : Nat)
+  /-- `o = JplPropagator(centre of o, frame of c).propagate(date k)` — either direction of a segment -/
+  | hand (k o c : Nat)
+  /-- `objs[i].frame = b`, in place -/
+  | setFrame (i b : Nat)
+  /-- `objs[i][j] = x`, in place -/
+  | setVal (i j : Nat) (x : R)
+  /-- look at `objs[i]` -/
+  | read (i : Nat)
+  /-- `o = objs[i].copy(frame=b)` -/
+  | copyTo (i b : Nat)
+  /-- zero state vector in the frame of a at date k, `.copy(frame=b)` -/
+  | offset (k a b : Nat)
+  /-- `frame(a).center.convert_to(date k, frame(b).center, orientation)` -/
+  | center (k a b : Nat)
+  /-- `objs[i].as_frame(x)` -/
+  | asFrame (i x : Nat)
+
+def emit (w : World) (k o c : Nat) : Res → World × Res
+  | .ok v => ({ w with objs := w.objs ++ [⟨k, c, v, o, c⟩] }, .ok v)
+  | e => (w, e)
+
+/-- one request; `none` = an index that does not exist (never sent by the harness). `seg k` are the raw segment
+values at date number `k`. -/
+def step (fuel : Nat) (ps : Pairs) (seg : Nat → Nat → Nat → V6) (w : World) : Op → Option (World × Res)
+  | .get k a =>
+    match propCenter ps a with
+    | none => some (w, .unknownBody)
+    | some c => some (emit w k a c (propagate ps (seg k) a c))
+  | .hand k o c => some (emit w k o c (propagate ps (seg k) o c))
+  | .setFrame i b =>
+    match w.objs[i]? with
+    | none => none
+    | some o =>
+      match reframeA fuel ps w.att (seg o.date) o.frame b o.vec with
+      | .ok v => some ({ w with objs := w.objs.set i { o with frame := b, vec := v } }, .ok v)
+      | e => some (w, e)
+  | .setVal i j x =>
+    match w.objs[i]? with
+    | none => none
+    | some o =>
+      let v : V6 := fun m => if m.val = j then x else o.vec m
+      some ({ w with objs := w.objs.set i { o with vec := v } }, .ok v)
+  | .read i =>
+    match w.objs[i]? with
+    | none => none
+    | some o => some (w, .ok o.vec)
+  | .copyTo i b =>
+    match w.objs[i]? with
+    | none => none
+    | some o =>
+      match reframeA fuel ps w.att (seg o.date) o.frame b o.vec with
+      | .ok v => some ({ w with objs := w.objs ++ [{ o with frame := b, vec := v }] }, .ok v)
+      | e => some (w, e)
+  | .offset k a b => some (w, reframeA fuel ps w.att (seg k) a b vzero)
+  | .center k a b => some (w, centerToA fuel ps w.att (seg k) a b)
+  | .asFrame i x =>
+    match w.objs[i]? with
+    | none => none
+    | some o => some ({ w with att := w.att ++ [⟨x, o.frame, o.obj, o.cen⟩] }, .ok o.vec)
+
+/-- a whole history: the answers in order -/
+def run (fuel : Nat) (ps : Pairs) (seg : Nat → Nat → Nat → V6) : World → List Op → Option (World × List Res)
+  | w, [] => some (w, [])
+  | w, op :: rest =>
+    match step fuel ps seg w op with
+    | none => none
+    | some (w1, r) =>
+      match run fuel ps seg w1 rest with
+      | none => none
+      | some (w2, rs) => some (w2, r :: rs)
+
 /-- physical constants of a body as `Pck.__getitem__` builds them from the PCK text files
 (all zero when no PCK file is configured) -/
 structure BodyConst where
